@@ -1,4 +1,16 @@
 import PqlModel.Props.C13
+import PqlModel.Props.C13Exact
 #print axioms Pql.C13.C13_either
 #print axioms Pql.C13.C13_arity_table
 #print axioms Pql.C13.C13_arity_agrees
+#print axioms Pql.C13.C13_exact_expr
+#print axioms Pql.C13.C13_exact_conds
+#print axioms Pql.C13.C13_exact_tabular
+#print axioms Pql.C13.C13_exact
+#print axioms Pql.C13.C13_exact_compile
+#print axioms Pql.C13.C13_parsed_wf
+#print axioms Pql.C13.C13_parsed_spans
+#print axioms Pql.C13.C13_exact_source
+#print axioms Pql.C13.witnessOp_disagrees
+#print axioms Pql.C13.witnessFlavor_disagrees
+#print axioms Pql.C13.witnessExtend_disagrees
